@@ -40,40 +40,109 @@ inductive Dest where
   | uncreatable
   deriving DecidableEq, Repr
 
-inductive FsOp where
-  | create                      -- `File::create` (truncates)
-  | writeAll (bytes : List Nat)
-  | flush
+/-- Faults the environment may inject into the file operations of `compile`. -/
+structure Faults where
+  /-- size limit for regular files (RLIMIT_FSIZE, free disk space): a regular file cannot grow
+  beyond this many bytes — a write that would makes it exactly this long and fails;
+  `none` = no limit -/
+  limit : Option Nat := none
+  /-- renaming the complete temporary file over the destination fails -/
+  renameFails : Bool := false
   deriving DecidableEq, Repr
 
-/-- File-system semantics assumed for the three kinds of destination. A failed operation
-leaves the destination as it was; partial writes on regular files (disk full) are outside
-this model (OS behaviour). Returns the new destination and whether the operation succeeded. -/
-def applyOp (d : Dest) : FsOp → Dest × Bool
-  | .create => match d with
-    | .file _ => (.file (some []), true)
-    | .devFull => (.devFull, true)
-    | .uncreatable => (.uncreatable, false)
-  | .writeAll bytes => match d with
-    | .file (some old) => (.file (some (old ++ bytes)), true)
-    | .file none => (.file none, false)
-    | .devFull => (.devFull, bytes.isEmpty)
-    | .uncreatable => (.uncreatable, false)
-  | .flush => (d, true)
+/-- The part of the file system `compile` touches: the destination and its temporary sibling
+`<dest>.tmp<pid>` (absent, or a regular file with these bytes). -/
+structure Fs where
+  dest : Dest
+  tmp : Option (List Nat) := none
+  deriving DecidableEq, Repr
 
-/-- The `Compile` arm: assemble (incl. emission); build the byte buffer; only then
-`File::create`, `write_all`, `flush`, each `?`-propagated. Returns exit status and destination. -/
-def compile (p : Parsed) (d : Dest) : Nat × Dest :=
+inductive FsOp where
+  | createDest                  -- `File::create(dest)` (truncates)
+  | writeDest (bytes : List Nat)
+  | flushDest
+  | createTmp                   -- `File::create(tmp)`
+  | writeTmp (bytes : List Nat)
+  | flushTmp
+  | rename                      -- `fs::rename(tmp, dest)`
+  | removeTmp                   -- `fs::remove_file(tmp)` (result ignored)
+  deriving DecidableEq, Repr
+
+/-- `write_all` on a regular file holding `old` under the size limit: all of it, or the part
+that fits and a failure. -/
+def writeLimited (f : Faults) (old bytes : List Nat) : List Nat × Bool :=
+  match f.limit with
+  | none => (old ++ bytes, true)
+  | some l => if old.length + bytes.length ≤ l then (old ++ bytes, true)
+              else ((old ++ bytes).take (max l old.length), false)
+
+/-- File-system semantics assumed. Returns the new state and whether the operation succeeded. -/
+def applyOp (f : Faults) (s : Fs) : FsOp → Fs × Bool
+  | .createDest => match s.dest with
+    | .file _ => ({ s with dest := .file (some []) }, true)
+    | .devFull => (s, true)
+    | .uncreatable => (s, false)
+  | .writeDest bytes => match s.dest with
+    | .file (some old) =>
+      let (b, ok) := writeLimited f old bytes
+      ({ s with dest := .file (some b) }, ok)
+    | .file none => (s, false)
+    | .devFull => (s, bytes.isEmpty)
+    | .uncreatable => (s, false)
+  | .flushDest => (s, true)
+  | .createTmp => match s.dest with
+    | .uncreatable => (s, false)                 -- the directory does not exist / is not writable
+    | _ => ({ s with tmp := some [] }, true)
+  | .writeTmp bytes => match s.tmp with
+    | some old =>
+      let (b, ok) := writeLimited f old bytes
+      ({ s with tmp := some b }, ok)
+    | none => (s, false)
+  | .flushTmp => (s, true)
+  | .rename => match s.tmp with
+    | some b => if f.renameFails then (s, false) else ({ dest := .file (some b), tmp := none }, true)
+    | none => (s, false)
+  | .removeTmp => ({ s with tmp := none }, true)
+
+/-- Run operations until one fails (`?` / `and_then` chains). -/
+def applyOps (f : Faults) (s : Fs) : List FsOp → Fs × Bool
+  | [] => (s, true)
+  | op :: rest =>
+    let (s1, ok) := applyOp f s op
+    if ok then applyOps f s1 rest else (s1, false)
+
+/-- `write_all_or_nothing(dest, bytes)` of main.rs: a destination that exists and is not a regular
+file (a device) is written in place; otherwise the bytes go to the temporary sibling, which is
+renamed over the destination once complete and removed if anything failed. -/
+def writeAllOrNothing (f : Faults) (s : Fs) (bytes : List Nat) : Fs × Bool :=
+  match s.dest with
+  | .devFull => applyOps f s [.createDest, .writeDest bytes, .flushDest]
+  | _ =>
+    let (s1, ok) := applyOps f s [.createTmp, .writeTmp bytes, .flushTmp, .rename]
+    if ok then (s1, true) else ((applyOp f s1 .removeTmp).1, false)
+
+/-- The `Compile` arm: assemble (incl. emission); build the byte buffer; only then touch the file
+system. Returns exit status and file-system state. -/
+def compileFs (f : Faults) (p : Parsed) (s : Fs) : Nat × Fs :=
   match assembleOk p with
-  | none => (1, d)
+  | none => (1, s)
   | some (orig, words) =>
-    let bytes := objBytes orig words
-    let (d1, ok1) := applyOp d .create
-    if !ok1 then (1, d1) else
-    let (d2, ok2) := applyOp d1 (.writeAll bytes)
-    if !ok2 then (1, d2) else
-    let (d3, ok3) := applyOp d2 .flush
-    if !ok3 then (1, d3) else (0, d3)
+    let (s1, ok) := writeAllOrNothing f s (objBytes orig words)
+    if ok then (0, s1) else (1, s1)
+
+/-- `compile` without injected faults, on the destination alone. -/
+def compile (p : Parsed) (d : Dest) : Nat × Dest :=
+  let r := compileFs {} p { dest := d }
+  (r.1, r.2.dest)
+
+/-- What `compile` did before the fix: create (truncate) the destination and write it in place.
+Kept to state the defect (`Props/C08.lean`). -/
+def compileInPlace (f : Faults) (p : Parsed) (s : Fs) : Nat × Fs :=
+  match assembleOk p with
+  | none => (1, s)
+  | some (orig, words) =>
+    let (s1, ok) := applyOps f s [.createDest, .writeDest (objBytes orig words), .flushDest]
+    if ok then (0, s1) else (1, s1)
 
 /-- Whether `lace run` gets past assembling (prints "Running emitted binary"). -/
 def runAssembles (p : Parsed) : Bool := (assembleOk p).isSome
